@@ -3,6 +3,7 @@
 package checks
 
 import (
+	"bytes"
 	"fmt"
 
 	"verif/bind"
@@ -60,9 +61,21 @@ func c03Compare(r *ev.Run, n *wire.N, h bind.Hist, what string, bad func(sig, wh
 	if err != nil {
 		return
 	}
-	r.Add("transitions", 2)
+	r.Add("transitions", 3)
+	// the second encoding of the same value (resend, several switches) must carry the same fields
+	first := append([]byte{}, b...)
+	if b2, err2, pn2 := safeEncode(m); pn2 == nil && err2 == nil && !bytes.Equal(first, b2) {
+		i := 0
+		for i < len(first) && i < len(b2) && first[i] == b2[i] {
+			i++
+		}
+		_, marks := wire.Encode(expectedTree(n))
+		bad("second-encoding:"+locus(fieldAt(marks, i)), fmt.Sprintf("encoding the same value a second time gives different bytes from offset %d (%s): first %x, second %x%s", i, fieldAt(marks, i), clipB(first, i), clipB(b2, i), what))
+		r.Outcome("mismatch")
+		return
+	}
 	want, marks := wire.Encode(expectedTree(n))
-	g := append([]byte{}, b...)
+	g := append([]byte{}, first...)
 	for _, x := range xidRanges(marks) {
 		for i := x[0]; i < x[1] && i < len(g); i++ {
 			g[i] = 0
